@@ -34,9 +34,7 @@ ASSUMPTIONS = [
     "it, every outcome descends from it or none does; rule 2 of the do-calculus is proved for functional SCMs on the noise space, no "
     "positivity of kernels is assumed, only P(condition) > 0); both are decided on the real run (tags in_fragment_c / in_fragment_x) "
     "AND by the model (driver op idc_star_checked), the two verdicts are part of the correspondence; a failure inside a fragment is a "
-    "VIOLATION keyed [IN-FRAGMENT(-X), kind], never a known finding. The exchange fragment's membership test also runs the model's "
-    "counterfactual-graph construction on the exchanged outcomes and asks that every Y_x is kept (never false on a generated input, not "
-    "proved from the other conditions)",
+    "VIOLATION keyed [IN-FRAGMENT(-X), kind], never a known finding.",
     "outside the two fragments soundness and zero-soundness have NO theorem; IDC* inherits the wrong "
     "answers of ID* (F10) and adds its own (an exchange made while other conditions remain ignores them; what remains of F11: "
     "Expression.conditional also normalises over the variables bound by inner sums of the ID* estimand -- the subscript part of "
@@ -657,8 +655,7 @@ def in_fragment_x(case):
     static  -- as in_fragment_c, with at least one outcome and exactly ONE condition X = x;
     dynamic -- line 4 recursed exactly once (rule 2 applied to X), the recursive call has NO condition and its outcomes are
                either exactly the Y_x of the original outcomes Y (every outcome descends from X) or exactly the original
-               outcomes (none descends from X), and its re-association returned them unchanged (the counterfactual graph of
-               the exchanged outcomes kept every key).
+               outcomes (none descends from X).
     Inside it IDC* is PROVED to return P(outcomes, X = x) / P(X = x) in every compatible functional SCM with P(X = x) > 0
     (rule 2 of the do-calculus on the noise space, no positivity assumption): a failure there is a VIOLATION."""
     outs, conds = case["outcomes"], case["conditions"]
@@ -673,15 +670,14 @@ def in_fragment_x(case):
         return False
     rec = {}
     res, _ = _run_real(case, K.id_strategies(joint(case))[0], record=rec)
-    levels, reassoc = rec.get("levels", []), rec.get("reassoc", [])
-    if len(levels) != 2 or len(reassoc) != 2 or res[0] == "err":
+    levels = rec.get("levels", [])
+    if len(levels) != 2 or res[0] == "err":
         return False
     want = K.sort_event([[K.mkvar(int(v_[1]), [(x, "m")]), val] for v_, val in outs])
     o2, c2 = K.sort_event(K.enc_event(levels[1][0])), K.enc_event(levels[1][1])
-    r2o, r2c = K.sort_event(K.enc_event(reassoc[1][0])), K.enc_event(reassoc[1][1])
     canon = lambda ev: sorted(json.dumps([K.canon_var(v_), str(val)]) for v_, val in ev)    # noqa: E731
     same = K.sort_event([[K.mkvar(int(v_[1])), val] for v_, val in outs])
-    return not c2 and not r2c and canon(r2o) == canon(o2) and canon(o2) in (canon(want), canon(same))
+    return not c2 and canon(o2) in (canon(want), canon(same))
 
 
 COARSE = ("F11", "normalisation:subscript", "inherited", "reassociation", "exchange:polarity", "exchange:conditions", "exchange:separation",
